@@ -37,7 +37,7 @@ func init() {
 		ID:    "C01",
 		Level: "exploration",
 		Rule: "families: (a) definition space: header+file_id+one single-field definition (message x field number x base-type byte x size x byte order)+matching data record, through Decode/DecodeChained (accepted definitions again with 4 payload patterns, as compressed-timestamp records with and without time reference, with developer descriptors, with 1-byte reads, and as the file_id definition through DecodeHeaderAndFileID); " +
-			"(b) header space (size byte x truncation x protocol x data type x data size x header CRC) through all six entry points; (c) record-header space: every pair of record header bytes after file_id with model-expected bodies, each cut at every offset (re-framed and not); (d) crasher inputs and testdata files cut at every/strided offsets; (e) developer-field space: 0..255 developer descriptors of sizes 0..255 with 0/1/3/255 regular fields, known / unknown / file_id messages. " +
+			"(b) header space (size byte x truncation x protocol x data type x data size x header CRC) through all six entry points; (c) record-header space: every pair of record header bytes after file_id with model-expected bodies, each cut at every offset (re-framed and not); (d) crasher inputs and testdata files cut at every/strided offsets; (e) developer-field space: 0..255 developer descriptors of sizes 0..255 with 0/1/3/255 regular fields, known / unknown / file_id messages; (f) every single-byte substitution (all 255 other values at every offset) of every small valid stream and small corpus file, with and without a recomputed file CRC. " +
 			"Oracle: every call returns (no panic; watchdog for hangs). distinct = distinct (entry point, error-class or accepted) outcomes x definition classes",
 		Assumptions: []string{"readers that return (0,nil) forever are outside the alphabet", "arbitrary deep garbage beyond the structured families is not enumerated"},
 		Run:         runC01,
@@ -124,6 +124,7 @@ func runC01(w *vx.W) {
 	c01RecordHeaders(c)
 	c01Corpus(c)
 	c01DevFields(c)
+	c01Substitutions(c)
 	c01Definitions(c)
 }
 
@@ -453,6 +454,53 @@ func c01DevFields(c *c01ctx) {
 						}
 					}
 				}
+			}
+		}
+	}
+}
+
+// ---------- (f) single-byte substitutions ----------
+
+// c01Substitutions: every byte of every small valid stream replaced by every other value (and the stream then
+// re-sealed so that the decoder gets past the CRC as well as not), through Decode and DecodeChained.
+func c01Substitutions(c *c01ctx) {
+	w := c.w
+	var small []namedStream
+	small = append(small, sMin12, sMin14, sAct3, sAct3BE, sSet, sMonState, sZero, sChain2)
+	for _, p := range corpusFiles() {
+		if b, err := os.ReadFile(p); err == nil && len(b) <= 260 {
+			small = append(small, single(p, b))
+		}
+	}
+	if c.w.Shard == 0 {
+		w.Extra("substitution_streams", len(small))
+	}
+	var idx int64
+	for _, s := range small {
+		buf := make([]byte, len(s.B))
+		for off := 0; off < len(s.B); off++ {
+			idx++
+			if !w.Mine(idx) {
+				continue
+			}
+			if w.Expired("substitutions") {
+				return
+			}
+			for v := 0; v < 256; v++ {
+				if byte(v) == s.B[off] {
+					continue
+				}
+				copy(buf, s.B)
+				buf[off] = byte(v)
+				c.call("Decode", buf, 0)
+				if len(s.Members) == 1 && off >= int(s.B[0]) && off < len(s.B)-2 {
+					// data-area byte: also with a recomputed file CRC so that parsing is not cut short by the check
+					cc := fitmodel.CRCFast(0, buf[:len(buf)-2])
+					buf[len(buf)-2], buf[len(buf)-1] = byte(cc), byte(cc>>8)
+					c.call("Decode", buf, 0)
+					c.call("DecodeChained", buf, 0)
+				}
+				w.Fam("f:single-byte-substitutions", 1)
 			}
 		}
 	}
